@@ -11,7 +11,8 @@
    commands (separated by ';', arguments by single spaces; `-` = NULL / absent):
      beh <cb> <ud> <e>/<e>/...       behaviour of callback cb with userdata ud: n-th call uses entry n (last
                                      repeats); entry = <0|1>[:<action>,<action>...]
-        actions: add:<k> dels:<cb> deli:<cb>:<id> delt:<cb> delg:<cb> send:<text>
+        actions: add:<k> dels:<cb> deli:<cb>:<id> delt:<cb> delg:<cb> send:<text> clk:<ms> (virtual clock
+                 advances inside the callback)
      def <k> s <ns> <name> <type> <cb> <ud> <u|y>     stanza handler definition (u = user API, y = system)
      def <k> i <id> <cb> <ud> <u|y>                   id handler
      def <k> t <period> <cb> <ud> <u|y>               timed handler          (cb 100..115)
@@ -157,6 +158,7 @@ static void do_action(const char *a)
     } else if (!strncmp(a, "delt:", 5)) xmpp_timed_handler_delete(conn, t_fn[atoi(a + 5) - 100]);
     else if (!strncmp(a, "delg:", 5)) xmpp_global_timed_handler_delete(ctx, g_fn[atoi(a + 5) - 200]);
     else if (!strncmp(a, "send:", 5)) xmpp_send_raw(conn, a + 5, strlen(a + 5));
+    else if (!strncmp(a, "clk:", 4)) now_ms += strtoull(a + 4, NULL, 10); /* the callback takes time */
 }
 
 /* a broken dispatch loop can keep calling handlers for ever (e.g. two handlers that delete and re-add each
